@@ -34,8 +34,9 @@ def stages(tier, rng, only=None):
         [ac.random_dataset(rng, 6, 6, nmin=3) for _ in range(n_rand // 2)], BIO, ac.MIXEDMAG,
         namings=["ints", "letters"]), _nt))
     out.append(ac.stage("reuse_other_dataset", PID, lambda: ac.reuse_other_cases(
-        grids.datasets(3, 2)[::5] + [ac.random_dataset(rng, 6, 5, nmin=3) for _ in range(n_rand // 2)], BIO, SCHEMES,
-        rng, flags=(1, 0)), _nt))
+        grids.datasets(3, 2)[::5] + [ac.random_dataset(rng, 7, 6, nmin=4) for _ in range(n_rand)]
+        + [ac.cyclic_dataset(rng, 4, 6) for _ in range(n_rand // 2)], BIO, SCHEMES, rng, flags=(1, 0), reverse=True),
+        _nt))
     out.append(ac.stage("huge_penalties", PID, lambda: ac.huge_cases(
         [ac.random_dataset(rng, 6, 6, nmin=4) for _ in range(n_rand // 2)]
         + [ac.cyclic_dataset(rng, 4, 6, incomplete=k % 2 == 1) for k in range(n_rand // 2)], BIO), _nt))
